@@ -128,11 +128,27 @@ func RenderAction(a Action) string {
 		switch a.S {
 		case "ruleRemoveById":
 			return fmt.Sprintf("ctl:ruleRemoveById=%d", a.N)
+		case "ruleRemoveByIdRange":
+			var hi []int
+			_ = json.Unmarshal(a.V, &hi)
+			if len(hi) == 1 {
+				return fmt.Sprintf("ctl:ruleRemoveById=%d-%d", a.N, hi[0])
+			}
+		case "ruleRemoveByTag":
+			return "ctl:ruleRemoveByTag=" + a.Op
+		case "ruleRemoveByMsg":
+			return "ctl:ruleRemoveByMsg=" + a.Op
 		case "ruleRemoveTargetById":
 			var ts []CtlTarget
 			_ = json.Unmarshal(a.K, &ts)
 			if len(ts) == 1 {
 				return fmt.Sprintf("ctl:ruleRemoveTargetById=%d;%s", a.N, renderSel(ts[0].Col, ts[0].Sel))
+			}
+		case "ruleRemoveTargetByTag", "ruleRemoveTargetByMsg":
+			var ts []CtlTarget
+			_ = json.Unmarshal(a.K, &ts)
+			if len(ts) == 1 {
+				return fmt.Sprintf("ctl:%s=%s;%s", a.S, a.Op, renderSel(ts[0].Col, ts[0].Sel))
 			}
 		case "ruleEngine":
 			return "ctl:ruleEngine=" + a.Op
@@ -200,6 +216,17 @@ func renderRule(sb *strings.Builder, r *Rule) {
 	}
 }
 
+func dirIDs(d *Dir) string {
+	if d.Hi != 0 {
+		r := fmt.Sprintf("%d-%d", d.Lo, d.Hi)
+		if len(d.IDs) > 0 {
+			return idList(d.IDs) + " " + r
+		}
+		return r
+	}
+	return idList(d.IDs)
+}
+
 func idList(ids []int) string {
 	ss := make([]string, len(ids))
 	for i, v := range ids {
@@ -211,21 +238,13 @@ func idList(ids []int) string {
 func renderDir(sb *strings.Builder, d *Dir) {
 	switch d.D {
 	case "SecRuleRemoveById":
-		if d.S != "" { // range "a-b"
-			fmt.Fprintf(sb, "SecRuleRemoveById %s\n", d.S)
-		} else {
-			fmt.Fprintf(sb, "SecRuleRemoveById %s\n", idList(d.IDs))
-		}
+		fmt.Fprintf(sb, "SecRuleRemoveById %s\n", dirIDs(d))
 	case "SecRuleRemoveByTag":
 		fmt.Fprintf(sb, "SecRuleRemoveByTag %s\n", d.S)
 	case "SecRuleRemoveByMsg":
 		fmt.Fprintf(sb, "SecRuleRemoveByMsg \"%s\"\n", d.S)
 	case "SecRuleUpdateTargetById":
-		ids := idList(d.IDs)
-		if d.S != "" {
-			ids = d.S
-		}
-		fmt.Fprintf(sb, "SecRuleUpdateTargetById %s \"%s\"\n", ids, renderUpdateTargets(d.Tgts))
+		fmt.Fprintf(sb, "SecRuleUpdateTargetById %s \"%s\"\n", dirIDs(d), renderUpdateTargets(d.Tgts))
 	case "SecRuleUpdateTargetByTag":
 		fmt.Fprintf(sb, "SecRuleUpdateTargetByTag %s \"%s\"\n", d.S, renderUpdateTargets(d.Tgts))
 	case "SecRuleUpdateActionById":
@@ -233,11 +252,7 @@ func renderDir(sb *strings.Builder, d *Dir) {
 		for _, a := range d.Acts {
 			acts = append(acts, RenderAction(a))
 		}
-		ids := idList(d.IDs)
-		if d.S != "" {
-			ids = d.S
-		}
-		fmt.Fprintf(sb, "SecRuleUpdateActionById %s \"%s\"\n", ids, strings.Join(acts, ","))
+		fmt.Fprintf(sb, "SecRuleUpdateActionById %s \"%s\"\n", dirIDs(d), strings.Join(acts, ","))
 	}
 }
 
